@@ -9,6 +9,17 @@ verus! {
 pub assume_specification<'a, T: Copy> [std::option::Option::<&'a T>::copied] (o: Option<&'a T>) -> (r: Option<T>)
     ensures r == (match o { Some(x) => Some(*x), None => None });
 
+/// the borrow `Deref::deref` yields (uninterpreted in general; fixed for String below)
+pub uninterp spec fn deref_target<T: std::ops::Deref>(t: &T) -> &<T as std::ops::Deref>::Target;
+
+// TRUSTED[option-as-deref]: Option<T>::as_deref maps Some(t) to Some(t.deref()) and None to None (std doc).
+pub assume_specification<T: std::ops::Deref> [std::option::Option::<T>::as_deref] (o: &Option<T>) -> (r: Option<&<T as std::ops::Deref>::Target>)
+    ensures match *o { Some(t) => r == Some(deref_target(&t)), None => r is None };
+
+// TRUSTED[string-deref-view]: dereferencing a String yields the str with the same text.
+pub broadcast axiom fn axiom_string_deref_view(s: &String)
+    ensures #[trigger] deref_target(s)@ == s@;
+
 /// result of `str::to_lowercase`; uninterpreted: nothing is assumed about non-ASCII text.
 pub uninterp spec fn str_lower(s: Seq<char>) -> Seq<char>;
 
